@@ -11,6 +11,10 @@ NOTE = ("Trusted: z3 5.1 (sample cross-checked with cvc5 1.4), NumPy object-dtyp
         "real arithmetic stands in for float64 (counterexamples are replayed in float64 before being reported).")
 
 CLAIMED = {
+ 'C05': dict(text="enforce/penalize/condense/solve run on matrices whose stored entries, rhs, prescribed values and solver output are symbolic; row/rhs identities and the implication 'condensed solution => original equations on kept rows' decided for all values, over all enumerated sparsity patterns n<=3 (n=4 sampled) and all index sets",
+             tech="symbolic execution of skfem.utils on a differentially validated sparse stub + z3 identities/implications", ref="4/C05"),
+ 'C20': dict(text="every integrand helper (NumPy and JAX source) equals its index-sum definition for all tensor entries (2x2, 3x3, trailing axes), and the two variants agree; NonlinearForm/JAX tracing is outside the claim",
+             tech="symbolic execution of helper functions on z3 terms + polynomial identity queries", ref="4/C20"),
  'C08': dict(text="every (reference cell, order) rule in the stated range integrates ALL polynomials of its advertised degree within 1e-12 (LRA over symbolic coefficients), weights/nodes read off concretely; declined orders raise",
              tech="SMT (z3 LRA) over symbolic polynomial coefficients on the real quadrature tables", ref="4/C08"),
 }
